@@ -220,11 +220,18 @@ func wireDispatch(s *scen, ctx context.Context, cancel context.CancelFunc) (*ins
 		cleanup: node.VerifCancel,
 		watch:   []string{"dosnode.dispatchSign"},
 	}
+	nilShare := false
+	if i, ok := s.pick["if !ok || sign == nil"]; ok && i == 0 {
+		nilShare = true
+	}
 	inst.value = func(ch string, i int) reflect.Value {
 		switch ch {
 		case "dosnode.choseSubmitter.outs#1":
 			return rv(submitter)
 		case "dosnode.genSign.out#0":
+			if nilShare {
+				return rv((*vss.Signature)(nil))
+			}
 			return rv(&vss.Signature{RequestId: rid, Content: []byte("content"), Signature: []byte("own share")})
 		}
 		return rv(doubles.Wrap(other, &vss.Signature{RequestId: rid, Content: []byte("content"), Signature: []byte(fmt.Sprintf("peer share %d", i))}))
